@@ -182,7 +182,7 @@ def gen_system(rng, family):
 
 def base_variant():
     return {"units": {}, "defunits": {}, "k": 1.0, "perm": None, "renum": {}, "dup": [], "spread": False, "mixorder": None,
-            "selfmix": None}
+            "selfmix": None, "mixscale": 1.0}
 
 
 def fnum(x):
@@ -332,6 +332,7 @@ class Renderer:
             if prng:
                 prng.shuffle(items)
             L = ["MIX %d" % n]
+            items = [[sn, f * V.get("mixscale", 1.0)] for sn, f in items]
             for sn, f in items:
                 if V["selfmix"] and V["selfmix"][0] == sn:
                     # the same solution listed twice, fractions adding up to the original one
@@ -464,7 +465,7 @@ def pair_ok(k, a, b):
 # ----------------------------------------------------------------------------- the check
 
 FAMILIES = ["speciation", "batch", "exchange", "surface", "gas", "kinetics", "mix"]
-TRANSFORMS = ["units", "water", "perm", "renum", "dup", "spread", "mixorder", "selfmix", "combo"]
+TRANSFORMS = ["units", "water", "perm", "renum", "dup", "spread", "mixorder", "selfmix", "mixscale", "combo"]
 
 UNITS = ["mol/kgw", "mmol/kgw", "umol/kgw", "g/kgw", "mg/kgw", "ug/kgw"]
 UNIT_SPELL = {"mol/kgw": ["mol/kgw", "Mol/kgw", "moles/kgw"], "mmol/kgw": ["mmol/kgw", "mMol/kgw", "millimol/kgw"], "umol/kgw": ["umol/kgw", "micromol/kgw"],
@@ -528,6 +529,9 @@ def make_variant(rng, S, t):
             V["dup"] = [rng.randrange(nb) for _ in range(rng.randint(1, 2))]
         elif t == "mixorder":
             V["mixorder"] = sub()
+        elif t == "mixscale":
+            # all mixing fractions times a common factor: the mixture is the same system, c times as much of it
+            V["mixscale"] = rnd_round(rng, logu(rng, 0.2, 5.0))
         elif t == "selfmix":
             mixes = [b for b in S["blocks"] if b["kind"] == "MIX"]
             if mixes:
@@ -536,7 +540,7 @@ def make_variant(rng, S, t):
 
 
 def applicable(family, t):
-    if t in ("mixorder", "selfmix"):
+    if t in ("mixorder", "selfmix", "mixscale"):
         return family == "mix"
     if t == "spread":
         return family in ("speciation", "batch", "mix", "exchange")
@@ -571,7 +575,7 @@ def compare(S, V, rb, rv):
             if math.isnan(a) or math.isnan(b) or math.isinf(a) or math.isinf(b):
                 cells.append((key, h, "nan", 1.0, 0.0, 1.0, a == b))
                 continue
-            kk = k if cl in ("ext", "phase") else 1.0
+            kk = (k * (V.get("mixscale", 1.0) if key[0] == "react" else 1.0)) if cl in ("ext", "phase") else 1.0
             cells.append((key, h, cl, kk, a, b, cell_ok(cl, kk, a, b)))
     return cells
 
@@ -728,6 +732,8 @@ def run(ctx):
         return replay(ctx, R)
 
     npairs = ctx.n(400, 3000)
+    if not ok:
+        npairs *= 2          # a proof obligation failed: search harder for a concrete failing input
     plan = []
     for i in range(npairs):
         fam = FAMILIES[i % len(FAMILIES)] if i < 4 * len(FAMILIES) else rng.choice(FAMILIES)
@@ -804,7 +810,7 @@ def run(ctx):
         what = "%s base, transformation %s (k=%r, max rel %.2e): %d observable(s) differ beyond 1e-8 relative, e.g. row %s column %s: transformed %r vs base %r (x%r)" % (
             fam, t, V["k"], mx, len(cs), c[0], c[1], c[4], c[5], c[3])
         ctx.violation(key, what, {"kind": "input", "database": DBNAME, "input_text": texts[i][1], "base_input_text": texts[i][0], "family": fam,
-                                  "transform": t, "k": V["k"], "renum": [[kd, a, b] for (kd, a), b in V["renum"].items()],
+                                  "transform": t, "k": V["k"], "mixscale": V.get("mixscale", 1.0), "renum": [[kd, a, b] for (kd, a), b in V["renum"].items()],
                                   "observed": {"columns": heads[:20], "cell": [str(c[0]), c[1], c[4]]}, "expected": {"cell": [str(c[0]), c[1], c[5] * c[3]]}})
     T3 = time.time()
     mv = model_vs_code(ctx, R, descs, res)
@@ -839,6 +845,7 @@ def replay(ctx, R):
     res = vlib.run_inputs(jobs, timeout_each=30, workers=2)
     V = base_variant()
     V["k"] = rp.get("k", 1.0)
+    V["mixscale"] = rp.get("mixscale", 1.0)
     for kd, a, b in rp.get("renum", []):
         V["renum"][(kd, a)] = b
     rb, rv = res["b0"], res["v0"]
